@@ -518,3 +518,108 @@ Corollary pairs_roundtrip ps body : pairs_wf ps -> option_map fst (spec_request 
 Proof. intros H. rewrite request_roundtrip by exact H. reflexivity. Qed.
 Corollary body_roundtrip ps body : pairs_wf ps -> option_map snd (spec_request (do_written ps body)) = Some body.
 Proof. intros H. rewrite request_roundtrip by exact H. reflexivity. Qed.
+
+(* ---------------- central theorem for arbitrary inputs (op 1 and op 2) ---------------- *)
+Lemma sizes_ok_wf ps : sizes_ok ps = true -> pairs_wf ps.
+Proof.
+  unfold sizes_ok, pairs_wf. intros H. apply Forall_forall. intros kv Hin.
+  rewrite forallb_forall in H. specialize (H kv Hin). lia.
+Qed.
+
+(* the keys of a header map built with h_add / h_set stay distinct *)
+Lemma h_add_keys m k v x : In x (map fst (h_add m k v)) -> x = k \/ In x (map fst m).
+Proof.
+  induction m as [|[k' vs] m IH]; cbn [h_add map fst In]; [intros [H|[]]; auto|].
+  destruct (bytes_eqb k k'); cbn [map fst In]; intros [H|H]; auto. destruct (IH H); auto.
+Qed.
+Lemma h_set_keys m k v x : In x (map fst (h_set m k v)) -> x = k \/ In x (map fst m).
+Proof.
+  induction m as [|[k' vs] m IH]; cbn [h_set map fst In]; [intros [H|[]]; auto|].
+  destruct (bytes_eqb k k'); cbn [map fst In]; intros [H|H]; auto. destruct (IH H); auto.
+Qed.
+Lemma h_add_nodup m k v : NoDup (map fst m) -> NoDup (map fst (h_add m k v)).
+Proof.
+  induction m as [|[k' vs] m IH]; intros H; cbn [h_add map fst]; [constructor; [intros []|constructor]|].
+  inversion H as [|? ? Hn Hd]; subst. destruct (bytes_eqb k k') eqn:E; cbn [map fst]; constructor; auto.
+  intros Hin. destruct (h_add_keys _ _ _ _ Hin) as [->|Hin']; [|contradiction].
+  rewrite bytes_eqb_refl in E. discriminate.
+Qed.
+Lemma h_set_nodup m k v : NoDup (map fst m) -> NoDup (map fst (h_set m k v)).
+Proof.
+  induction m as [|[k' vs] m IH]; intros H; cbn [h_set map fst]; [constructor; [intros []|constructor]|].
+  inversion H as [|? ? Hn Hd]; subst. destruct (bytes_eqb k k') eqn:E; cbn [map fst]; constructor; auto.
+  intros Hin. destruct (h_set_keys _ _ _ _ Hin) as [->|Hin']; [|contradiction].
+  rewrite bytes_eqb_refl in E. discriminate.
+Qed.
+Lemma fold_add_nodup {X} (f : X -> bytes) (g : X -> bytes) l : forall m,
+  NoDup (map fst m) -> NoDup (map fst (fold_left (fun m kv => h_add m (f kv) (g kv)) l m)).
+Proof. induction l as [|x l IH]; intros m H; cbn [fold_left]; [exact H|]. apply IH. apply h_add_nodup. exact H. Qed.
+Lemma fold_set_nodup {X} (f : X -> bytes) (g : X -> bytes) l : forall m,
+  NoDup (map fst m) -> NoDup (map fst (fold_left (fun m kv => h_set m (f kv) (g kv)) l m)).
+Proof. induction l as [|x l IH]; intros m H; cbn [fold_left]; [exact H|]. apply IH. apply h_set_nodup. exact H. Qed.
+
+Lemma meta_header_nodup q : NoDup (map fst (meta_header q)).
+Proof.
+  unfold meta_header. destruct (remote_ip_port (q_remote q)) as [ip port].
+  destruct (match split_host_port (q_host q) with Some hp => hp | None => (q_host q, []) end) as [rhost rport].
+  cbv zeta. unfold A.
+  repeat first [apply h_set_nodup | apply h_add_nodup | apply fold_add_nodup | apply fold_set_nodup].
+  constructor.
+Qed.
+
+Lemma nodup_distinct (l : list (bytes * bytes)) : NoDup (map fst l) -> distinct_keys l = true.
+Proof.
+  induction l as [|[k v] l IH]; intros H; [reflexivity|]. cbn [map fst] in H. inversion H as [|? ? Hn Hd]; subst.
+  cbn [distinct_keys]. rewrite (IH Hd), andb_true_r.
+  destruct (existsb (fun kv => bytes_eqb k (fst kv)) l) eqn:E; [|reflexivity].
+  exfalso. apply Hn. apply existsb_exists in E. destruct E as (kv & Hin & He).
+  apply bytes_eqb_eq in He. subst. apply in_map. exact Hin.
+Qed.
+Lemma meta_pairs_distinct q : distinct_keys (meta_pairs q) = true.
+Proof.
+  apply nodup_distinct. unfold meta_pairs. rewrite map_map. cbn [fst]. apply meta_header_nodup.
+Qed.
+
+Theorem central_C55 i : wf_C55 i = true -> kf_C55 i = 0 -> prop_C55 i (run_C55 i) = true.
+Proof.
+  unfold wf_C55, kf_C55. intros Hwf Hkf.
+  destruct (dec_C55 i) as [[[ps body] resp]|] eqn:Hd.
+  - (* op 1 *)
+    apply andb_true_iff in Hwf. destruct Hwf as [Hsz _]. pose proof (sizes_ok_wf _ Hsz) as Hp.
+    unfold run_C55, prop_C55. rewrite Hd. unfold out_C55. destruct (client_stream resp) as [st code] eqn:Ec.
+    assert (Hb : bad_input (VL [VB (do_written ps body); VB st; VZ code]) = false) by reflexivity.
+    rewrite Hb. cbn [orb].
+    rewrite request_roundtrip by exact Hp. rewrite same_pairs_refl, bytes_eqb_refl. cbn [andb].
+    destruct (has_other_content resp) eqn:Eo; [discriminate|].
+    pose proof (stdout_only_partial resp Eo) as Hs. rewrite Ec in Hs. cbn [fst] in Hs. rewrite Hs, bytes_eqb_refl. cbn [andb].
+    destruct (has_end resp) eqn:Ee; [|reflexivity].
+    pose proof (end_request_eof resp Ee) as He. rewrite Ec in He. cbn [snd] in He. rewrite He. reflexivity.
+  - (* op 2 *)
+    destruct (dec2_C55 i) as [[[q body] resp]|] eqn:Hd2; [|discriminate].
+    apply andb_true_iff in Hwf. destruct Hwf as [Hwf Hrep]. apply andb_true_iff in Hwf. destruct Hwf as [Hsz Hmeta].
+    pose proof (sizes_ok_wf _ Hsz) as Hp.
+    unfold run_C55, prop_C55. rewrite Hd, Hd2. unfold out2_C55.
+    destruct (client_stream resp) as [st code] eqn:Ec.
+    destruct (parse_reply st code) as [[[rterr status] rbody]|] eqn:Epr; [|discriminate].
+    match goal with |- bad_input ?o || _ = true => assert (Hb : bad_input o = false) by reflexivity; rewrite Hb end.
+    cbn [orb].
+    rewrite request_roundtrip by exact Hp. rewrite bytes_eqb_refl. cbn [andb].
+    unfold meta_ok in Hmeta. rewrite Hmeta, meta_pairs_distinct. cbn [andb].
+    destruct (has_end resp) eqn:Ee; [|reflexivity].
+    destruct (has_other_content resp) eqn:Eo; [discriminate|].
+    pose proof (stdout_only_partial resp Eo) as Hs. rewrite Ec in Hs. cbn [fst] in Hs.
+    pose proof (end_request_eof resp Ee) as He. rewrite Ec in He. cbn [snd] in He.
+    subst st code. rewrite Epr. rewrite !Z.eqb_refl, bytes_eqb_refl. cbn [andb].
+    destruct (rterr =? 0); reflexivity.
+Qed.
+
+Definition ex_op2 : val :=
+  VL [VZ 2; VB [71;69;84]; VB [104;116;116;112]; VB [104;58;56;48]; VB [49;46;50;46;51;46;52;58;53]; VB [47;97]; VB [];
+      VB [72;84;84;80;47;49;46;49]; VZ 0; VL [VL [VB [88;45;65]; VL [VB [49]]]]; VB [47;114]; VL []; VB [];
+      VB [1;6;0;1;0;2;0;0;13;10; 1;6;0;1;0;0;0;0; 1;3;0;1;0;8;0;0;0;0;0;0;0;0;0;0]].
+Definition ex_op1 : val := VL [VL [VL [VB [65]; VB [66]]]; VB [98;111;100;121]; VZ 7;
+      VB [1;6;0;1;0;2;0;0;111;107; 1;6;0;1;0;0;0;0; 1;3;0;1;0;8;0;0;0;0;0;0;0;0;0;0]].
+Lemma central_examples_C55 :
+  wf_C55 ex_op1 = true /\ kf_C55 ex_op1 = 0 /\ wf_C55 ex_op2 = true /\ kf_C55 ex_op2 = 0
+  /\ run_C55 ex_op2 <> VErr 7 /\ run_C55 ex_op2 <> VErr 0.
+Proof. vm_compute. repeat split; discriminate. Qed.
